@@ -643,6 +643,16 @@ pub fn run(args: &Args) -> Report {
         })
         .reduce(new, merge);
     report.merge(c);
+    // number literals: every binary exponent x mantissa pattern, as a document and viewed as f64
+    let f64_shape = Shape::Leaf(Leaf::F64);
+    for b in crate::c01::double_grid(args.tier.is_thorough()) {
+        let v = f64::from_bits(b);
+        if let Ok(doc) = serde_json::to_string(&v) {
+            check_b(&doc, &mut report);
+            check_c(&doc, &f64_shape, &mut report);
+            check_a(&f64_shape, &Val::F64(v), &mut report);
+        }
+    }
     static_keys(&mut report);
     report.sample("C", json!({"doc": "{\"NaN\":\"aGk=\"}", "shape": "map<f64,bytes>"}));
     report.extra.insert("space_A_shapes".into(), json!(shapes.len()));
